@@ -147,3 +147,137 @@ Definition race_spec (confirmed : list bool) (mid fin leak : bool) : Prop :=
 
 Definition race_oracle (confirmed : list bool) (mid fin leak : bool) : bool :=
   (if existsb (fun b => b) confirmed then negb mid else true) && fin && negb leak.
+
+(* ===================================================================================== *)
+(* 4. Partially observed scripts.  Some steps of a script are not looked at, or only one of *)
+(*    Done() / Size() is: an observation is a pair of options.  The Size the property PINS   *)
+(*    is threaded through the script: after a Size has been observed, a Size() call and an   *)
+(*    Add offered to an ended pool ("ignored") leave it unchanged; any other operation       *)
+(*    unpins it.                                                                             *)
+
+Record pobs := mkpobs { p_done : option bool; p_size : option Z }.
+
+Definition pfull (o : bool * Z) : pobs := mkpobs (Some (fst o)) (Some (snd o)).
+Definition pnone : pobs := mkpobs None None.
+
+Definition pin_step (r : ref) (pin : option Z) (op : sop) : option Z :=
+  match op with
+  | SSize => pin
+  | SAdd _ => if ref_done r then pin else None      (* offered after the pool ended: ignored *)
+  | _ => None
+  end.
+
+Definition size_ok (r : ref) (z : Z) : Prop :=
+  if r_cancelled r then z = 0%Z
+  else (Z.of_nat (length (live_members r)) <= z <= Z.of_nat (r_offered r))%Z.
+
+Definition pobs_spec (pin : option Z) (r : ref) (o : pobs) : Prop :=
+  (forall d, p_done o = Some d -> d = ref_done r) /\
+  (forall z, p_size o = Some z -> size_ok r z /\ (forall e, pin = Some e -> z = e)).
+
+Definition pin_next (pin : option Z) (o : pobs) : option Z :=
+  match p_size o with Some z => Some z | None => pin end.
+
+Fixpoint pscript_spec_from (r : ref) (pin : option Z) (ops : list sop) (obs : list pobs) : Prop :=
+  match ops, obs with
+  | [], [] => True
+  | op :: ops', o :: obs' =>
+      pobs_spec (pin_step r pin op) (ref_step r op) o /\
+      pscript_spec_from (ref_step r op) (pin_next (pin_step r pin op) o) ops' obs'
+  | _, _ => False
+  end.
+
+Definition pscript_spec (pre ctxs : list Z) (ops : list sop) (o0 : bool * Z)
+           (obs : list pobs) (fin leak : bool) : Prop :=
+  pobs_spec None (ref_new pre ctxs) (pfull o0) /\
+  pscript_spec_from (ref_new pre ctxs) (Some (snd o0)) ops obs /\
+  fin = true /\ leak = false.
+
+Definition size_okb (r : ref) (z : Z) : bool :=
+  if r_cancelled r then (z =? 0)%Z
+  else (Z.of_nat (length (live_members r)) <=? z)%Z && (z <=? Z.of_nat (r_offered r))%Z.
+
+Definition pobs_oracle (pin : option Z) (r : ref) (o : pobs) : bool :=
+  match p_done o with Some d => Bool.eqb d (ref_done r) | None => true end &&
+  match p_size o with
+  | Some z => size_okb r z && match pin with Some e => (z =? e)%Z | None => true end
+  | None => true
+  end.
+
+Fixpoint pscript_oracle_from (r : ref) (pin : option Z) (ops : list sop) (obs : list pobs) : bool :=
+  match ops, obs with
+  | [], [] => true
+  | op :: ops', o :: obs' =>
+      pobs_oracle (pin_step r pin op) (ref_step r op) o &&
+      pscript_oracle_from (ref_step r op) (pin_next (pin_step r pin op) o) ops' obs'
+  | _, _ => false
+  end.
+
+Definition pscript_oracle (pre ctxs : list Z) (ops : list sop) (o0 : bool * Z)
+           (obs : list pobs) (fin leak : bool) : bool :=
+  pobs_oracle None (ref_new pre ctxs) (pfull o0) &&
+  pscript_oracle_from (ref_new pre ctxs) (Some (snd o0)) ops obs &&
+  fin && negb leak.
+
+(* ===================================================================================== *)
+(* 5. An operation nested in Add.  After the settled script [ops1] the caller offers         *)
+(*    context [m]; the context's Done() method - which Add calls when it does not ignore     *)
+(*    the offer - is a callback of the caller, and INSIDE it the caller performs [nops]:     *)
+(*    it starts Cancel() or Size() on another goroutine, or ends members itself, and waits   *)
+(*    a bounded time.  Observed:                                                             *)
+(*      called   Done() was called (otherwise [nops] were performed after Add returned);     *)
+(*      ndone    the pool's context was seen done ndone the callback, hence before Add      *)
+(*               returned;                                                                   *)
+(*      nret     the nested Cancel()/Size() returned at all;                                 *)
+(*      nres     what the nested Size() returned;                                            *)
+(*      oA       (Done() closed?, Size()) after Add and the nested call both returned and    *)
+(*               the pool settled; then the settled script [ops2] with its observations.     *)
+(*    When Done() was called, the nested operation and Add OVERLAP: each may take effect     *)
+(*    before the other, and the property must hold for one of the two orders; when it was    *)
+(*    not called, the nested operation came strictly after Add.  Whatever the order: after   *)
+(*    the nested Cancel() returned Size is zero and later Adds are ignored; a pool seen done *)
+(*    ndone the callback ignores the offered context or had it as an ended member.          *)
+
+Definition nested_obs (ndone : bool) (nres : option Z) : pobs :=
+  mkpobs (if ndone then Some true else None) nres.
+
+Definition unobserved (ops : list sop) : list pobs := map (fun _ => pnone) ops.
+
+(* Add takes effect first.  The two trailing Size steps carry the observation made of the
+   nested operation and the observation after both calls returned. *)
+Definition lin_add_first (ops1 : list sop) (m : Z) (nops ops2 : list sop) : list sop :=
+  ops1 ++ SAdd m :: nops ++ SSize :: SSize :: ops2.
+
+Definition lin_add_first_obs (obs1 : list (bool * Z)) (nops : list sop) (ndone : bool)
+           (nres : option Z) (oA : bool * Z) (obs2 : list (bool * Z)) : list pobs :=
+  map pfull obs1 ++ pnone :: unobserved nops ++ nested_obs ndone nres :: pfull oA :: map pfull obs2.
+
+(* the nested operation takes effect first *)
+Definition lin_add_last (ops1 : list sop) (m : Z) (nops ops2 : list sop) : list sop :=
+  ops1 ++ nops ++ SSize :: SAdd m :: ops2.
+
+Definition lin_add_last_obs (obs1 : list (bool * Z)) (nops : list sop) (ndone : bool)
+           (nres : option Z) (oA : bool * Z) (obs2 : list (bool * Z)) : list pobs :=
+  map pfull obs1 ++ unobserved nops ++ nested_obs ndone nres :: pfull oA :: map pfull obs2.
+
+Definition nested_spec (pre ctxs : list Z) (ops1 : list sop) (o0 : bool * Z)
+           (obs1 : list (bool * Z)) (m : Z) (nops : list sop) (called ndone nret : bool)
+           (nres : option Z) (oA : bool * Z) (ops2 : list sop) (obs2 : list (bool * Z))
+           (fin leak : bool) : Prop :=
+  nret = true /\
+  (pscript_spec pre ctxs (lin_add_first ops1 m nops ops2) o0
+                (lin_add_first_obs obs1 nops ndone nres oA obs2) fin leak \/
+   (called = true /\
+    pscript_spec pre ctxs (lin_add_last ops1 m nops ops2) o0
+                 (lin_add_last_obs obs1 nops ndone nres oA obs2) fin leak)).
+
+Definition nested_oracle (pre ctxs : list Z) (ops1 : list sop) (o0 : bool * Z)
+           (obs1 : list (bool * Z)) (m : Z) (nops : list sop) (called ndone nret : bool)
+           (nres : option Z) (oA : bool * Z) (ops2 : list sop) (obs2 : list (bool * Z))
+           (fin leak : bool) : bool :=
+  nret &&
+  (pscript_oracle pre ctxs (lin_add_first ops1 m nops ops2) o0
+                  (lin_add_first_obs obs1 nops ndone nres oA obs2) fin leak ||
+   (called &&
+    pscript_oracle pre ctxs (lin_add_last ops1 m nops ops2) o0
+                   (lin_add_last_obs obs1 nops ndone nres oA obs2) fin leak)).
